@@ -43,7 +43,7 @@ CHECKS["C18"] = ("Parse.tla (tokenizer, total parser, printer) + TLC: all string
 NOTES = {"C19": SMALL_NOTE, "C17": SMALL_NOTE, "C10": SMALL_NOTE, "C16": SMALL_NOTE, "C18": SMALL_NOTE}
 CHECKS["C06"] = ("SlottedCC.tla MinCost (least fixpoint over the partition's e-node structure, 3 strictly monotone cost functions) + TLC exhaustive; extraction from every represented invocation (and every old handle) in every replayed final state compared with it; recorded rewriting runs (default and explanations build, ExtractionSubst) must not panic in the extractor",
          "extracted terms are represented in the queried invocation, their recomputed cost equals the reported best cost and the specification's minimum, free slots are query arguments or brand-new", "5 C06")
-CHECKS["C05"] = ("EMatch.tla (declarative e-matching over the congruence of SlottedCC.tla: the complete set of admissible ground matches of every pattern, orbit-least form) + TLC exhaustive; every state replayed into the real EGraph: every substitution of ematch_all is grounded in the name pool, mapped to specification classes and must be a member of the specification's set; in every final state a 25-pattern / 20-multi-pattern pool is matched and every returned substitution is instantiated (harness representatives) and looked up; fingerprint before/after",
+CHECKS["C05"] = ("EMatch.tla (declarative e-matching over the congruence of SlottedCC.tla: the complete set of admissible ground matches of every pattern, orbit-least form) + TLC exhaustive; every state replayed into the real EGraph: every substitution of ematch_all is grounded in the name pool, mapped to specification classes and must be a member of the specification's set (states without redundant slots); in every final state a 25-pattern / 20-multi-pattern pool is matched and every returned substitution is instantiated (harness representatives) and looked up; fingerprint before/after",
          "every reported match binds all variables, is a member of the specification's match set and denotes a represented term, multi-pattern equations hold between the bound classes, matching changes nothing", "5 C05")
 CHECKS["C14"] = ("SlottedCC.tla MinCost for astsize/depth = least fixpoint of make/merge; analysis (min size, min depth) read at every class after every call of every replayed path and compared",
          "analysis data of every class equals the specification's least fixpoint after every call (min-size, min-depth); constant folding with modify hook: see level_note", "5 C14")
